@@ -577,6 +577,7 @@ async fn run_history(root: &Path, h: &Value, out: &mut NdjsonOut, limit: Duratio
                 // EditCancelled: the worker is held at the `at`-th cancellation check point of this request's
                 // compilation while the NEXT step's didChange is delivered (which sets the retrigger flag, as in
                 // production); then it is released and aborts.  Chains of cancelled edits are handled in turn.
+                let mut holding = false; // a compilation is held at a check point, waiting to be cancelled
                 loop {
                     let cancel = act == "EditCancelled";
                     let v = versions.entry(m.to_string()).or_insert(1);
@@ -586,7 +587,9 @@ async fn run_history(root: &Path, h: &Value, out: &mut NdjsonOut, limit: Duratio
                         GATE.arm_next.store(s["at"].as_i64().unwrap_or(1), Ordering::SeqCst);
                     }
                     let r = did_change(&state, &dir.join(rel_path(m)), *v, &render(&s["text"], m)).await;
-                    gate_release(); // lets a previously held compilation abort
+                    if holding {
+                        gate_release(); // the held compilation now sees the retrigger flag and aborts
+                    }
                     if let Err(e) = r {
                         GATE.arm_next.store(0, Ordering::SeqCst);
                         GATE.arm.store(0, Ordering::SeqCst);
@@ -613,6 +616,7 @@ async fn run_history(root: &Path, h: &Value, out: &mut NdjsonOut, limit: Duratio
                         break;
                     }
                     // held: no observation point for this step; the next step's didChange cancels it
+                    holding = true;
                     out.emit(&json!({"id":id,"k":k+1,"act":act,"m":m,"at":s["at"],"chg":s["chg"],"text":s["text"],
                                      "cancelled":true,"incr":{"status":"cancelled"}}));
                     k += 1;
